@@ -10,11 +10,16 @@ CTX = "zctx"  # name of the context parameter; never in the vocabularies
 # shared prefixes, underscores, single letters, leading/trailing underscores
 VOCAB10 = ["a", "b", "ab", "abc", "a_b", "ab_c", "_a", "b_", "no_a", "_"]
 VOCAB = VOCAB10 + ["foo", "foo_bar", "f", "bar", "no_foo", "a_b_c", "a__b", "x1", "__x__", "foo_",
-                   "o", "n", "no", "ba", "__"]
+                   "o", "n", "no", "ba", "__",
+                   # case matters: identifiers and short flags are case-sensitive
+                   "Verbose", "v", "V", "Ab", "aB", "A", "B", "Foo", "F", "No_a"]
 
 DEFAULTS = [["E"], ["N"], ["S", "x"], ["S", ""], ["I", 0], ["I", 5], ["B", True], ["B", False],
-            ["L", []], ["L", ["p", "q"]]]
-KINDS7 = [["E"], ["N"], ["S", "x"], ["I", 5], ["B", True], ["B", False], ["L", []]]
+            ["L", []], ["L", ["p", "q"]],
+            # defaults of other types: [O, type name, source text]
+            ["O", "float", "1.5"], ["O", "tuple", "(1, 2)"], ["O", "float", "0.0"]]
+OTHER = {"float": float, "tuple": tuple}
+KINDS7 = [["E"], ["N"], ["S", "x"], ["I", 5], ["B", True], ["B", False], ["L", []], ["O", "float", "1.5"]]
 KINDS3 = [["E"], ["B", True], ["S", "x"]]
 
 EMPTY_SENTINEL = "<inspect._empty>"
@@ -28,6 +33,8 @@ def py_default(d):
     k = d[0]
     if k == "N":
         return "None"
+    if k == "O":
+        return d[2]
     return repr(d[1])
 
 
@@ -44,7 +51,8 @@ def source(params):
         else:
             seen_default = True
             parts.append("%s=%s" % (name, py_default(d)))
-    return "def f(%s):\n    pass\n" % ", ".join(parts)
+    names = [n for n, _ in params]
+    return "def f(%s):\n    return dict(%s)\n" % (", ".join(parts), ", ".join("%s=%s" % (n, n) for n in names))
 
 
 _BODY_CACHE = {}
@@ -76,7 +84,7 @@ def canon_val(v):
         return ["S", v]
     if isinstance(v, list):
         return ["L", [str(x) for x in v]]
-    return ["S", "<other:%s>" % type(v).__name__]
+    return ["S", "<%s %r>" % (type(v).__name__, v)]      # the reserved spelling of Common/SigTypes.v
 
 
 KIND_NAMES = {str: "KStr", int: "KInt", bool: "KBool", list: "KList"}
@@ -111,6 +119,8 @@ def coq_pdefault(d):
         return "(DBool %s)" % ct.b(d[1])
     if k == "L":
         return "(DList %s)" % ct.strs(d[1])
+    if k == "O":
+        return "(DOther %s %s)" % (ct.s(d[1]), ct.s(repr(eval(d[2]))))
     raise ValueError(d)
 
 
@@ -239,9 +249,34 @@ class C09(Prop):
             ctx = ParserContext(name="t", args=args)
         except Exception as e:  # noqa
             return {"err": type(e).__name__}
+        # the same task through the public route: @task(...) decorator, Collection, to_contexts()
+        from invoke import task as task_deco, Collection, Context
+        from invoke.executor import Executor
+        try:
+            deco_kwargs = dict(optional=tuple(case["optional"]), iterable=list(case["iterable"]),
+                               incrementable=list(case["incrementable"]), auto_shortflags=case["auto"])
+            if case["positional"] is not None:
+                deco_kwargs["positional"] = case["positional"]
+            t2 = task_deco(**deco_kwargs)(body_of(params)) if (deco_kwargs != dict(
+                optional=(), iterable=[], incrementable=[], auto_shortflags=True)) else task_deco(body_of(params))
+            coll = Collection()
+            coll.add_task(t2, name="t")
+            ctx2 = coll.to_contexts()[0]
+        except Exception as e:  # noqa
+            return {"err": "decorator-route:" + type(e).__name__}
+
+        def table(c):
+            return ([(a.names, a.kind, a.default, a.positional, a.optional, a.incrementable, a.attr_name)
+                     for a in c.args.values()],
+                    sorted((k, v.names[0]) for k, v in dict.items(c.flags)), sorted(c.flags.aliases.items()),
+                    sorted(c.inverse_flags.items()), [a.names[0] for a in c.positional_args],
+                    list(c.as_kwargs.items()))
+        if table(ctx) != table(ctx2) or ctx2.name != "t":
+            return {"err": "decorator-route-differs"}
         o = {}
         o["args"] = [{"names": list(a.names), "kind": KIND_NAMES.get(a.kind, "KStr"),
-                      "kind_known": a.kind in KIND_NAMES,
+                      "kind_known": a.kind in KIND_NAMES, "kind_name": getattr(a.kind, "__name__", "?"),
+                      "takes_value": bool(a.takes_value),
                       "default": canon_val(a.default), "positional": bool(a.positional),
                       "optional": bool(a.optional), "incrementable": bool(a.incrementable),
                       "attr_name": a.attr_name} for a in args]
@@ -254,6 +289,14 @@ class C09(Prop):
         try:
             inspect.signature(body).bind(object(), **kw)
             o["binds"] = True
+        except TypeError:
+            o["binds"] = False
+        # ... and the kwargs really reach the function through Executor.normalize + the Task call
+        try:
+            call = Executor(coll).normalize([ctx2])[0]
+            got = call.task(Context(), *call.args, **call.kwargs)
+            if list(got.items()) != [(n, kw[n]) for n, _ in params] or call.called_as != "t":
+                o["binds"] = False
         except TypeError:
             o["binds"] = False
         return {"ok": o}
@@ -273,9 +316,11 @@ class C09(Prop):
                 ct.b(a["positional"]), ct.b(a["optional"]), ct.b(a["incrementable"]),
                 ct.opt(None if a["attr_name"] is None else ct.s(a["attr_name"]))) for a in o["args"]])
             kw = ct.lst([ct.pair(ct.s(k), coq_aval(v)) for k, v in o["kwargs"]])
-            return "(mkCli %s %s %s %s %s %s %s)" % (
+            return "(mkCli %s %s %s %s %s %s %s %s %s)" % (
                 args, ss(o["flags"]), ss(o["flag_aliases"]), ss(o["inverse"]),
-                ct.strs(o["positional"]), kw, ct.b(o["binds"]))
+                ct.strs(o["positional"]), kw, ct.b(o["binds"]),
+                ct.strs([a["kind_name"] for a in o["args"]]),
+                ct.lst([ct.b(a["takes_value"]) for a in o["args"]]))
         return "(mk (mkSig %s %s) %s)" % (ps, deco, ct.result(obs, cli))
 
     # ------------------------------------------------------------- reporting
@@ -333,7 +378,7 @@ class C09(Prop):
             yield dict(case, auto=True)
         for i, (n, d) in enumerate(ps):
             for d2 in (["E"], ["N"], ["B", False]):
-                if d != d2 and d[0] not in ("E",):
+                if d != d2 and d[0] not in ("E",) and len(d2) <= len(d):
                     yield dict(case, params=ps[:i] + [[n, d2]] + ps[i + 1:])
             for n2 in ("a", "b", "ab"):
                 if n2 not in names and len(n2) < len(n):
